@@ -614,7 +614,7 @@ def mutate_text(rng, text):
 
 class C03(Check):
     pid = "C03"
-    quick_cases = 5000
+    quick_cases = 4000
     thorough_cases = 30000
     rule = ("distinct (graph, options) cases with at least one node; counted per codec and option vector")
     assumptions = [
